@@ -324,11 +324,39 @@ def rule_frame(ctx, repo):
     from ..rules import canon_arith
     st = ci.methods['__str__']
 
+    def glue(e):
+        """x[a:b] + x[b:c] read as x[a:c], and x[a:c][0] / x[a:c][1:] as x[a] / x[a+1:c]: equal wherever the pieces do not
+        overlap, which the rule `reader:slices-disjoint` (len >= 5) establishes for the decoded string"""
+        class G(ast.NodeTransformer):
+            def visit_BinOp(self, n):
+                n = self.generic_visit(n)
+                l_, r_ = n.left, n.right
+                if isinstance(n.op, ast.Add) and isinstance(l_, ast.Subscript) and isinstance(r_, ast.Subscript) and isinstance(l_.slice, ast.Slice) and isinstance(r_.slice, ast.Slice) \
+                        and norm(l_.value) == norm(r_.value) and l_.slice.step is None and r_.slice.step is None and l_.slice.upper is not None and r_.slice.lower is not None \
+                        and norm(l_.slice.upper) == norm(r_.slice.lower):
+                    lo = l_.slice.lower
+                    if isinstance(lo, ast.Constant) and lo.value == 0:
+                        lo = None
+                    return ast.Subscript(value=l_.value, slice=ast.Slice(lower=lo, upper=r_.slice.upper, step=None), ctx=ast.Load())
+                return n
+
+            def visit_Subscript(self, n):
+                n = self.generic_visit(n)
+                inner = n.value
+                if isinstance(inner, ast.Subscript) and isinstance(inner.slice, ast.Slice) and inner.slice.step is None and (inner.slice.lower is None or (isinstance(inner.slice.lower, ast.Constant) and inner.slice.lower.value == 0)):
+                    # (x[:c])[0] -> x[0:1][0] ; (x[:c])[1:] -> x[1:c]
+                    if isinstance(n.slice, ast.Constant) and n.slice.value == 0:
+                        return ast.Subscript(value=ast.Subscript(value=inner.value, slice=ast.Slice(lower=ast.Constant(0), upper=ast.Constant(1), step=None), ctx=ast.Load()), slice=ast.Constant(0), ctx=ast.Load())
+                    if isinstance(n.slice, ast.Slice) and n.slice.step is None and n.slice.upper is None and isinstance(n.slice.lower, ast.Constant) and n.slice.lower.value == 1:
+                        return ast.Subscript(value=inner.value, slice=ast.Slice(lower=ast.Constant(1), upper=inner.slice.upper, step=None), ctx=ast.Load())
+                return n
+        return ast.fix_missing_locations(G().visit(ast.parse(ast.unparse(e), mode='eval').body))
+
     def ca(fi, e):
-        return canon_arith(common.resolved(fi, e, repo))
+        return canon_arith(glue(common.resolved(fi, e, repo)))
 
     def want(fi, text):
-        return canon_arith(common.resolved(fi, ast.parse(text, mode='eval').body, repo))
+        return canon_arith(glue(common.resolved(fi, ast.parse(text, mode='eval').body, repo)))
     rets = [n for n in walk_no_nested(st.node) if isinstance(n, ast.Return) and n.value is not None]
     if len(rets) != 1:
         r.undecided('writer:frame', st.site, '__str__ has %d returns' % len(rets))
